@@ -125,7 +125,8 @@ class AddressMixin:
 
     @staticmethod
     def quote_sheet(sheet):
-        if ' ' in sheet:
+        if not all(c.isalnum() or c in '_.' for c in sheet):
+            # any other character (space, quote, operator, ...) needs quotes
             sheet = quote_sheetname(sheet)
         return sheet
 
